@@ -270,4 +270,43 @@ def subF (sfs : PFields) : PFields → Bool
      | none => false) && subF sfs tfs
 end
 
+/-! ## Targets that add fields (hypothesis of `convert_shred_added`) -/
+
+/-- static twin of `closestLeaf`: name, column offset within the group's block and repetition type
+    of the closest leaf sibling -/
+def closestOff : PFields → Nat → Option (Nat × Nat × Rp) → Option (Nat × Nat × Rp)
+  | .nil, _, best => best
+  | .cons nm rp n fs, off, best =>
+    match n with
+    | .leaf =>
+      closestOff fs (off + 1)
+        (match best with
+         | some (bn, bo, brp) => if nm < bn then some (nm, off, rp) else some (bn, bo, brp)
+         | none => some (nm, off, rp))
+    | .group gfs => closestOff fs (off + leavesP (.group gfs)) best
+
+/-- an added field is synthesised correctly in a source group with fields `sfs` at definition
+    level `sd`: the closest leaf sibling is required, or there is none and the group sits at level 0 -/
+def addOk (sfs : PFields) (sd : Nat) : Bool :=
+  match closestOff sfs 0 none with
+  | some (_, _, .req) => true
+  | some _ => false
+  | none => sd == 0
+
+mutual
+/-- `addN sd src tgt`: the target is obtained from the source (entered at definition level `sd`)
+    by deleting and permuting fields and ADDING fields (any subtree) in groups where `addOk` holds;
+    shared fields keep their repetition type. -/
+def addN (sd : Nat) : PNode → PNode → Bool
+  | .leaf, .leaf => true
+  | .group sfs, .group tfs => addF sd sfs tfs
+  | _, _ => false
+def addF (sd : Nat) (sfs : PFields) : PFields → Bool
+  | .nil => true
+  | .cons nm trp t tfs =>
+    (match getFld nm sfs with
+     | some (srp, s) => decide (srp = trp) && addN (sd + defOf srp) s t
+     | none => addOk sfs sd) && addF sd sfs tfs
+end
+
 end PqModel.Convert
